@@ -464,7 +464,7 @@ mod v_socket_udp {
         drain_tx(&mut s, cx, &g, &bound, hop);
     }
 
-    // @harness props=C09,C13 cfg=KG tier=q to=900 mem=8 unwind=17 opts=nomem covers=3 funcs=udp::Socket::poll_at;udp::Socket::send_slice;udp::Socket::send_with;udp::Socket::dispatch bounds=tx_metadata_slots_1..=3;_payload_ring_0..=8;_script_send_slice,_send_with,_dispatch,_send_slice,_dispatch_(each_may_be_a_no-op);_poll_at_probed_after_every_step
+    // @harness props=C09,C13 cfg=KG tier=q to=900 mem=8 unwind=17 opts=nomem covers=3 funcs=udp::Socket::poll_at;udp::Socket::send_slice;udp::Socket::send_with;udp::Socket::dispatch bounds=tx_metadata_slots_1..=3;_payload_ring_0..=8;_script_send_slice,_send_with,_dispatch,_send_slice,_dispatch,_dispatch_(each_may_be_a_no-op);_poll_at_probed_after_every_step
     #[kani::proof]
     pub(crate) fn udp_poll_at() {
         tx_setup!(dev, iface, cx, s, g, bound, hop);
@@ -481,14 +481,45 @@ mod v_socket_udp {
         // a send that may be refused after its padding record was written, then the last datagram leaves
         let sent = step_send(&mut s, &mut g, &bound, VIA_SLICE);
         let p4 = s.poll_at(cx);
+        // sufficient: a queued datagram is always announced
         assert!(g.count() == 0 || p4 == PollAt::Now, "prop:c13_udp_poll_at_now_while_datagram_queued");
         let ok = step_dispatch(&mut s, cx, &mut g);
         let p5 = s.poll_at(cx);
         assert!(g.count() == 0 || p5 == PollAt::Now, "prop:c13_udp_poll_at_now_while_datagram_queued");
-        assert!(g.count() > 0 || p5 == PollAt::Ingress, "prop:c13_udp_poll_at_ingress_when_nothing_queued");
+        assert!(p5 == PollAt::Now || p5 == PollAt::Ingress, "prop:c13_udp_poll_at_now_or_ingress");
+        // non-spinning: a dispatch that had nothing to emit leaves no deadline behind
+        let mut seen = false;
+        let _ = s.dispatch(cx, |_cx, _pm, _p| {
+            seen = true;
+            Err::<(), ()>(())
+        });
+        assert!(seen == (g.count() > 0), "prop:c09_udp_tx_no_datagram_lost");
+        let p6 = s.poll_at(cx);
+        assert!(seen || p6 == PollAt::Ingress, "prop:c13_udp_idle_dispatch_leaves_no_deadline");
         kani::cover!(p2 == PollAt::Now && p5 == PollAt::Ingress, "queue drained: Now -> Ingress");
-        kani::cover!(!sent && g.count() == 0 && g.popped && ok, "send refused, then the last datagram dispatched");
+        kani::cover!(!sent && g.count() == 0 && g.popped && ok && p5 == PollAt::Now && p6 == PollAt::Ingress, "only a padding record left: one idle dispatch, then Ingress");
         kani::cover!(!ok && g.count() == 2, "emit failed with two queued: still Now");
+    }
+
+    // Concrete witness: a send refused for lack of a second metadata slot leaves its padding record behind;
+    // once the last datagram is gone, poll_at says Now although nothing is queued, and the socket refuses a
+    // datagram that fits its payload capacity although no datagram is queued.
+    // @harness props=C09,C13 cfg=KG tier=q to=600 mem=4 unwind=17 opts=nomem covers=1 funcs=udp::Socket::poll_at;udp::Socket::send_slice;udp::Socket::dispatch;PacketBuffer::enqueue bounds=concrete_script:_2_metadata_slots,_8_payload_bytes;_send_4,_send_3,_dispatch,_send_2_(refused),_dispatch
+    #[kani::proof]
+    pub(crate) fn udp_padding_left_behind_tx() {
+        env!(dev, iface, cx);
+        sock!(s, 1, 0, 2, 8);
+        assert!(s.bind(IpListenEndpoint { addr: None, port: 9 }).is_ok(), "prop:c09_udp_bind_fresh_socket");
+        let to = mk_meta(IpEndpoint { addr: IpAddress::Ipv4(Ipv4Address::new(192, 168, 1, 2)), port: 7 }, None);
+        let data = pattern(1);
+        assert!(s.send_slice(&data[..4], to).is_ok() && s.send_slice(&data[..3], to).is_ok(), "prop:c09_udp_empty_tx_accepts_up_to_capacity");
+        let _ = s.dispatch(cx, |_cx, _pm, _p| Ok::<(), ()>(()));
+        let third = s.send_slice(&data[..2], to);
+        let _ = s.dispatch(cx, |_cx, _pm, _p| Ok::<(), ()>(()));
+        kani::cover!(third.is_err(), "third datagram refused");
+        // both datagrams are gone, the third was refused: nothing is queued
+        assert!(third.is_ok() || s.poll_at(cx) == PollAt::Ingress, "prop:c13_udp_poll_at_ingress_when_nothing_queued");
+        assert!(third.is_ok() || s.send_slice(&data[..8], to).is_ok(), "prop:c09_udp_empty_tx_accepts_up_to_capacity");
     }
 
     // ---------------------------------------------------------------- receive side: script steps
@@ -681,22 +712,29 @@ mod v_socket_udp {
         drain_rx(&mut s, &g);
     }
 
-    // can_recv() promises that recv() will hand out a datagram
-    // @harness props=C09 cfg=KG tier=q to=900 mem=8 unwind=17 opts=nomem covers=2 funcs=udp::Socket::can_recv;udp::Socket::recv;udp::Socket::process;PacketBuffer::enqueue bounds=rx_metadata_slots_1..=3;_payload_ring_0..=8;_script_process,_process,_recv,_process,_recv_(each_may_be_a_no-op;_sizes_1..=9)
+    // Concrete witness (receive side of udp_padding_left_behind_tx): can_recv() answers true although
+    // recv() has nothing to hand out.
+    // @harness props=C09 cfg=KG tier=q to=600 mem=4 unwind=17 opts=nomem covers=1 funcs=udp::Socket::can_recv;udp::Socket::recv;udp::Socket::process;PacketBuffer::enqueue bounds=concrete_script:_2_metadata_slots,_8_payload_bytes;_process_4,_process_3,_recv,_process_2_(dropped),_recv
     #[kani::proof]
-    pub(crate) fn udp_can_recv() {
-        rx_setup!(dev, iface, cx, s, g, bound);
-        step_process(&mut s, cx, &mut g);
-        step_process(&mut s, cx, &mut g);
-        step_recv(&mut s, &mut g);
-        let third = step_process(&mut s, cx, &mut g);
-        step_recv(&mut s, &mut g);
+    pub(crate) fn udp_padding_left_behind_rx() {
+        env!(dev, iface, cx);
+        sock!(s, 2, 8, 1, 0);
+        assert!(s.bind(IpListenEndpoint { addr: None, port: 9 }).is_ok(), "prop:c09_udp_bind_fresh_socket");
+        let udp = UdpRepr { src_port: 7, dst_port: 9 };
+        let data = pattern(1);
+        let from = IpAddress::Ipv4(Ipv4Address::new(192, 168, 1, 2));
+        let ip4 = IpRepr::new(from, IpAddress::Ipv4(LOCAL), IpProtocol::Udp, 12, 64);
+        let ip3 = IpRepr::new(from, IpAddress::Ipv4(LOCAL), IpProtocol::Udp, 11, 64);
+        let ip2 = IpRepr::new(from, IpAddress::Ipv4(LOCAL), IpProtocol::Udp, 10, 64);
+        s.process(cx, PacketMeta::default(), &ip4, &udp, &data[..4]);
+        s.process(cx, PacketMeta::default(), &ip3, &udp, &data[..3]);
+        assert!(matches!(s.recv(), Ok((b, _)) if b.len() == 4), "prop:c09_udp_rx_no_datagram_lost");
+        s.process(cx, PacketMeta::default(), &ip2, &udp, &data[..2]);
+        assert!(matches!(s.recv(), Ok((b, _)) if b.len() == 3), "prop:c09_udp_rx_no_datagram_lost");
         let can = s.can_recv();
         let got = s.recv().is_ok();
-        assert!(got == (g.count() > 0), "prop:c09_udp_rx_no_datagram_lost");
+        kani::cover!(!got, "third datagram was dropped");
         assert!(can == got, "prop:c09_udp_can_recv_iff_recv_succeeds");
-        kani::cover!(!third && g.count() == 0 && g.popped, "third datagram dropped, then the queue read empty");
-        kani::cover!(can && g.count() == 2, "two queued");
     }
 
     // @harness props=C09 cfg=KG tier=q to=600 mem=8 unwind=17 opts=nomem covers=4 funcs=udp::Socket::accepts;udp::Socket::bind;udp::Socket::close;udp::Socket::is_open bounds=bound_endpoint_and_packet_addresses_IPv4_(any)_or_IPv6_(2_symbolic_groups);_any_ports;_close_after_2_sends_and_2_received_datagrams
